@@ -160,6 +160,17 @@ def main():
             q = IMPORTS[imp][1]
             add("private|enum|%s|%s" % (pos, imp), project(imp, "", tmpl.format(T="%s::%s" % (q, PRIV["e"]))), False)
             add("exported|enum|%s|%s" % (pos, imp), project(imp, "", tmpl.format(T="%s::%s" % (q, PUB["E"]))), True)
+    # the UNQUALIFIED spelling: a private symbol of an imported module must not become nameable by its bare name either
+    for kind, pk, call in (("fn", "f", "()"), ("const", "k", ""), ("var", "v", "")):
+        for pos, tmpl in VALUE_POS.items():
+            for imp in (imps if tier != "quick" else ["plain"]):
+                add("private-bare|%s|%s|%s" % (kind, pos, imp), project(imp, "", tmpl.format(X="%s%s" % (PRIV[pk], call))), False)
+    for pos, (decl, stmt) in TYPE_POS.items():
+        for imp in (imps if tier != "quick" else ["plain", "aliased"]):
+            add("private-bare|type|%s|%s" % (pos, imp), project(imp, decl.format(T=PRIV["t"]), stmt.format(T=PRIV["t"])), False)
+    for pos, tmpl in ENUM_POS.items():
+        for imp in (imps if tier != "quick" else ["plain"]):
+            add("private-bare|enum|%s|%s" % (pos, imp), project(imp, "", tmpl.format(T=PRIV["e"])), False)
     # own module: everything is visible (the module m itself uses its private symbols in Own()) — covered by every accepted case
     # fields
     for place in FIELD_PLACES:
@@ -193,7 +204,7 @@ def main():
                 st["rejected"] += 1
             else:
                 f = key.split("|")
-                rep.fail("leak:" + key, "private %s is accessible from outside (%s): the program is accepted" % (f[1] if f[0] == "private" else "field", key),
+                rep.fail("leak:" + key, "private %s is accessible from outside (%s): the program is accepted" % (f[1] if f[0] in ("private", "private-bare") else "field", key),
                          {"kind": "input", "files": files, "cmd": "ferret -t main.fer", "expected": "error: not exported / private", "observed": "accepted"})
 
     ok, outp = lake_build(["FerretVerif.Props.C12"])
